@@ -5,14 +5,15 @@ Require Import TT.Model.Base TT.Model.Str TT.Model.Topo TT.Model.C13Order.
 Require Import TT.Spec.TsLex TT.Spec.TsModule TT.Spec.TsObs TT.Spec.C13Spec.
 Import ListNotations.
 
+(* the patched pipeline under hash orders w, and the pipeline run directly under w (no sorting: the
+   behaviour before C13-sort-before-use, kept to explain a regression in a replay) *)
 Definition c13_gen (zod : bool) (w : omega) (p : project) : option output := gen zod w p.
-Definition c13_gen_fixed (zod : bool) (w : omega) (p : project) : option output := gen_fixed zod w p.
+Definition c13_gen_raw (zod : bool) (w : omega) (p : project) : option output := gen_raw zod w p.
 Definition c13_viz (w : omega) (p : project) : vizout := viz w p.
-(* class flags: dupdef, cmd_files, ev_files, param_files, used2, zod_unordered, viz *)
-Definition c13_classes (p : project) : list bool :=
-  [kf_dupdef p; kf_cmd_files p; kf_ev_files p; kf_param_files p; kf_used2 p; kf_zod_unordered p; kf_viz p].
+(* class flags: dupdef, dupevent *)
+Definition c13_classes (p : project) : list bool := [kf_dupdef p; kf_dupevent p].
 Definition c13_rel (a b : str) : verdict := rel a b.
 Definition c13_labels (s : str) : sx := labels s.
 
 Extraction Language OCaml.
-Extraction "tt_c13.ml" c13_gen c13_gen_fixed c13_viz c13_classes c13_rel c13_labels.
+Extraction "tt_c13.ml" c13_gen c13_gen_raw c13_viz c13_classes c13_rel c13_labels.
